@@ -35,6 +35,8 @@ structure ExtDoc where
 structure FrameDoc where
   id : Bytes
   shortName : Bytes
+  /-- a DESC element of the frame: it belongs to the frame, never to a PDU -/
+  desc : Option Bytes := none
   byteLength : Nat
   pdus : List Inst
   ext : Option ExtDoc
@@ -153,6 +155,7 @@ def optText (t : Tag) : Option Bytes → List XmlEv
 def renderFrame (f : FrameDoc) : List XmlEv :=
   [.start .FRAME (idAttr f.id)]
     ++ textElem .SHORT_NAME f.shortName
+    ++ (match f.desc with | some d => textElem .DESC d | none => [])
     ++ textElem .BYTE_LENGTH (digits f.byteLength)
     ++ textElem .FRAME_TYPE OTHER
     ++ [.start .other []] ++ (f.pdus.map renderPduInst).flatten ++ [.end_ .other]
